@@ -65,6 +65,7 @@ impl Op {
 
     pub fn new(definition: &str, ctx: &dyn Context) -> Result<Op, Error> {
         let globals = ctx.globals();
+        let definition = &crate::token::remove_comments(definition);
         let parameters = RawParameters::new(definition, &globals);
         Self::op(parameters, ctx)
     }
@@ -166,7 +167,7 @@ impl Op {
                 ],
             );
             let mut next_param = parameters.next(def);
-            next_param.definition = macro_definition;
+            next_param.definition = crate::token::remove_comments(&macro_definition);
             let mut op = Op::op(next_param, ctx)?.handle_inversion(inverted)?;
             for key in ["omit_fwd", "omit_inv"] {
                 if given(key) {
